@@ -104,18 +104,26 @@ Definition c04_expected (b : build) (it : ity) (reg_at cmd_at buf_at : ity) (d :
    access included) x every index 0..count-1, in declaration order; reported address = ADDR + i*STRIDE *)
 Definition readable_acc (a : access) : bool := match a with RW | RO => true | WO => false end.
 
-Definition read_all_items (all objs : list object) : list (string * Z * meth * option Z) :=
+(* One read_all_registers item: display name and the address handed to the callback.
+   Root block: the constant expression ADDR (+|-) IDX * |STRIDE|.  Non-root block (since /repo's repair of D2):
+   (self.base_address + ADDR (+|-) IDX * |STRIDE|) as AT — the same arithmetic the accessor performs, so the
+   reported address IS the bus address. [lv] = the levels leading to the block ([] for the root). *)
+Definition read_all_items (it : ity) (lv : list level) (all objs : list object) : list (string * string) :=
   flat_map (fun o =>
     match method_of all o with
     | Some m =>
       match m_kind m with
       | KReg acc =>
         if readable_acc acc then
+          let item (i : option Z) :=
+            (show_step m i,
+             match lv with
+             | [] => show_Z (read_all_reported (m_addr m) (m_rep m) (match i with Some z => z | None => 0 end))
+             | _ => show_outcome_Z (gen_addr_from Debug it 0 (lv ++ [level_of m i])%list)
+             end) in
           match m_rep m with
-          | None => [(m_name m, read_all_reported (m_addr m) None 0, m, None)]
-          | Some r => map (fun i => (m_name m ++ "[" ++ show_Z (Z.of_nat i) ++ "]",
-                                     read_all_reported (m_addr m) (Some r) (Z.of_nat i), m, Some (Z.of_nat i)))
-                          (seq 0 (Z.to_nat (r_count r)))
+          | None => [item None]
+          | Some r => map (fun i => item (Some (Z.of_nat i))) (seq 0 (Z.to_nat (r_count r)))
           end
         else []
       | _ => []
@@ -123,28 +131,28 @@ Definition read_all_items (all objs : list object) : list (string * Z * meth * o
     | None => []
     end) objs.
 
-Definition show_read_all (all objs : list object) : string :=
-  String.concat "," (map (fun x => let '(n, a, _, _) := x in n ++ "@" ++ show_Z a) (read_all_items all objs)).
+Definition show_read_all (it : ity) (lv : list level) (all objs : list object) : string :=
+  String.concat "," (map (fun x : string * string => let '(n, a) := x in n ++ "@" ++ a) (read_all_items it lv all objs)).
 
 (* read_all for the root block and for every (block path with valid indices) *)
-Fixpoint read_all_blocks (fuel : nat) (all objs : list object) (prefix : string) : list (string * string) :=
+Fixpoint read_all_blocks (fuel : nat) (it : ity) (all objs : list object) (prefix : string) (lv : list level) : list (string * string) :=
   match fuel with
   | O => []
   | S f =>
-    (prefix, show_read_all all objs) ::
+    (prefix, show_read_all it lv all objs) ::
     flat_map (fun o =>
       match o, method_of all o with
       | OBlock _ _ _ _ inner, Some m =>
         flat_map (fun i => if index_valid (level_of m i)
-                           then read_all_blocks f all inner (prefix ++ show_step m i ++ "/") else [])
+                           then read_all_blocks f it all inner (prefix ++ show_step m i ++ "/") (lv ++ [level_of m i])%list else [])
                  (indices (m_rep m))
       | _, _ => []
       end) objs
   end.
 
-Definition c04_read_all (d : device) : string :=
+Definition c04_read_all (it : ity) (d : device) : string :=
   String.concat ";" (map (fun kv : string * string => let '(k, v) := kv in "RA:" ++ k ++ "=" ++ v)
-                         (read_all_blocks (size_fuel d) (d_objects d) (d_objects d) "")).
+                         (read_all_blocks (size_fuel d) it (d_objects d) (d_objects d) "" [])).
 
 Definition ity_of_name (s : string) : ity :=
   if String.eqb s "u8" then {| signed := false; bits := 8 |} else if String.eqb s "u16" then {| signed := false; bits := 16 |}
@@ -156,4 +164,4 @@ Definition ity_of_name (s : string) : ity :=
 
 Definition c04_result (it_name : string) (d : device) : string :=
   c04_expected Debug (ity_of_name it_name) (ity_of_name it_name) (ity_of_name it_name) (ity_of_name it_name) d
-  ++ "|" ++ c04_read_all d.
+  ++ "|" ++ c04_read_all (ity_of_name it_name) d.
